@@ -161,7 +161,10 @@ pub fn gen_plan(property: &str, seed: u64, index: u64, tier: Tier) -> Plan {
             let (_, s) = choose_start(&mut rng, &[(StartKind::Initial, 3), (StartKind::Special, 4), (StartKind::Suite, 2), (StartKind::Random, 3)]);
             start = s;
             scenario = "command-stream";
-            let len = rng.range(10, if thorough { 80 } else { 40 });
+            // a tenth of the streams belong to a long game: a hundred quiet plies first (typed input is
+            // legal or not whatever the clocks say), then the usual mix
+            let late = mix(seed, index, 0x4c54) % 10 == 0;
+            let len = if late { rng.range(104, 125) } else { rng.range(10, if thorough { 80 } else { 40 }) };
             let policy = *rng.pick(&[Policy::Spicy, Policy::Hunt, Policy::Uniform, Policy::Lookalike]);
             let mut seen = Seen::default();
             let mut pos = start.clone();
@@ -174,7 +177,8 @@ pub fn gen_plan(property: &str, seed: u64, index: u64, tier: Tier) -> Plan {
                 }
                 let labels: Vec<String> = legal.iter().map(|m| san(&pos, m, &legal)).collect();
                 // a burst of faulted messages before the accepted one
-                let burst = if rng.chance(2, 3) { rng.range(1, 4) } else { 0 };
+                let quiet_phase = late && plies < 100;
+                let burst = if quiet_phase { 0 } else if rng.chance(2, 3) { rng.range(1, 4) } else { 0 };
                 for _ in 0..burst {
                     let text = match rng.below(10) {
                         0 | 1 => garbage(&mut rng),
@@ -221,7 +225,7 @@ pub fn gen_plan(property: &str, seed: u64, index: u64, tier: Tier) -> Plan {
                     ops.push(Op::Typed(text));
                 }
                 // the accepted message: canonical label or coordinates of a policy-chosen move
-                let k = choose_move_seen(&mut rng, &pos, &legal, policy, None, &mut seen);
+                let k = choose_move_seen(&mut rng, &pos, &legal, if quiet_phase { Policy::Frozen } else { policy }, None, &mut seen);
                 let m = legal[k];
                 if rng.chance(1, 2) || (m.promo.is_some() && m.promo != Some(P::Queen)) {
                     ops.push(Op::Typed(labels[k].clone()));
